@@ -933,6 +933,44 @@ Proof.
 Qed.
 
 (* ---- publisher ---- *)
+(* the publisher's broadcast, before it leaves the join mutex *)
+Definition pub_sent (s : state) (p : pkt) (rest : list pkt) : state :=
+  {| s_ok := s_ok s; s_lock := s_lock s; s_lockq := s_lockq s; s_cache := s_cache s;
+     s_sent := s_sent s ++ [p]; s_cached := s_cached s; s_todo := rest; s_pp := P0;
+     s_count := s_count s; s_cs := send_all maxq ncons (s_cs s) p; s_att := s_att s;
+     s_stp := s_stp s; s_kp := s_kp s |}.
+
+Lemma pub_send_inv : forall pkts s p rest, Inv pkts s -> s_pp s = P2 -> s_todo s = p :: rest ->
+  Inv pkts (pub_sent s p rest).
+Proof.
+  intros pkts s p rest HI Hpp Ht. unfold pub_sent.
+  destruct (i_in _ _ HI Hpp) as [p' [rest' [Ht' Hc]]].
+  rewrite Ht in Ht'. injection Ht' as <- <-.
+  constructor; simpl.
+  + apply (i_nodup _ _ HI).
+  + intros Hin. pose proof (i_qpub _ _ HI Hin). congruence.
+  + apply (i_qatt _ _ HI).
+  + discriminate.
+  + intros _. exact Hc.
+  + discriminate.
+  + destruct (i_pre _ _ HI) as [dropped [Hp Hd]]. exists []. split; [|left; reflexivity].
+    destruct Hd as [Hd|[_ Hd]]; [|congruence]. subst dropped.
+    rewrite Hp, Ht, <- app_assoc. reflexivity.
+  + apply (i_range _ _ HI).
+  + intros c Ha. rewrite send_all_spec. rewrite (i_early _ _ HI c Ha). simpl.
+    rewrite andb_false_r. reflexivity.
+  + intros c Ha. destruct (i_a1 _ _ HI c Ha) as [pre Hpre]. exists pre.
+    rewrite send_all_spec, Hpre. simpl. rewrite andb_false_r. reflexivity.
+  + apply (i_s1 _ _ HI).
+  + intros c. rewrite send_all_spec.
+    destruct ((c <? ncons) && c_reg (s_cs s c)); [rewrite send_started|]; apply (i_started _ _ HI c).
+  + intros c. rewrite send_all_spec.
+    destruct (c_reg (s_cs s c)) eqn:Hreg.
+    * pose proof (reg_range _ _ _ HI Hreg) as Hc'. apply Nat.ltb_lt in Hc'. rewrite Hc'. simpl.
+      apply KI_send; [apply (i_ki _ _ HI c) | exact Hreg].
+    * rewrite andb_false_r. apply KI_skip; [apply (i_ki _ _ HI c) | exact Hreg].
+Qed.
+
 Lemma step_pub_inv : forall pkts s s', Inv pkts s ->
   step_pub fixed maxq cache_t cache_add cache_snap ncons s = Some s' -> Inv pkts s'.
 Proof.
@@ -975,34 +1013,31 @@ Proof.
     injection Hstep as <-. apply acquire_pub_inv; [exact HI | exact Hpp | congruence].
   - (* P2 *)
     injection Hstep as <-. apply release_inv.
-    destruct (i_in _ _ HI Hpp) as [p' [rest' [Ht' Hc]]].
-    rewrite Ht in Ht'. injection Ht' as <- <-.
-    constructor; simpl.
-    + apply (i_nodup _ _ HI).
-    + intros Hin. pose proof (i_qpub _ _ HI Hin). congruence.
-    + apply (i_qatt _ _ HI).
-    + discriminate.
-    + intros _. exact Hc.
-    + discriminate.
-    + destruct (i_pre _ _ HI) as [dropped [Hp Hd]]. exists []. split; [|left; reflexivity].
-      destruct Hd as [Hd|[_ Hd]]; [|congruence]. subst dropped.
-      rewrite Hp, Ht, <- app_assoc. reflexivity.
-    + apply (i_range _ _ HI).
-    + intros c Ha. rewrite send_all_spec. rewrite (i_early _ _ HI c Ha). simpl.
-      rewrite andb_false_r. reflexivity.
-    + intros c Ha. destruct (i_a1 _ _ HI c Ha) as [pre Hpre]. exists pre.
-      rewrite send_all_spec, Hpre. simpl. rewrite andb_false_r. reflexivity.
-    + apply (i_s1 _ _ HI).
-    + intros c. rewrite send_all_spec.
-      destruct ((c <? ncons) && c_reg (s_cs s c)); [rewrite send_started|]; apply (i_started _ _ HI c).
-    + intros c. rewrite send_all_spec.
-      destruct (c_reg (s_cs s c)) eqn:Hreg.
-      * pose proof (reg_range _ _ _ HI Hreg) as Hc'. apply Nat.ltb_lt in Hc'. rewrite Hc'. simpl.
-        apply KI_send; [apply (i_ki _ _ HI c) | exact Hreg].
-      * rewrite andb_false_r. apply KI_skip; [apply (i_ki _ _ HI c) | exact Hreg].
+    apply (pub_send_inv pkts s p rest HI Hpp Ht).
 Qed.
 
 (* ---- attacher ---- *)
+(* the attacher registered, before it leaves the join mutex *)
+Definition att_reg (s : state) (c : nat) : state :=
+  set_att cache_t s c A2 (s_count s + 1)%Z
+          (upd (s_cs s) c (set_reg (s_cs s c) true (length (s_sent s)))).
+
+Lemma att_reg_inv : forall pkts s c, Inv pkts s -> s_att s c = A1 -> Inv pkts (att_reg s c).
+Proof.
+  intros pkts s c HI Ha. unfold att_reg.
+  destruct (i_a1 _ _ HI c Ha) as [pre Hpre]. rewrite Hpre.
+  eapply inv_cs; try exact HI; try reflexivity; simpl.
+  + left; reflexivity.
+  + intros c'. destruct (Nat.eq_dec c c') as [<-|Hne].
+    * rewrite upd_same. right. right. auto.
+    * rewrite upd_other by exact Hne. left. reflexivity.
+  + intros c' Hs. left. exact Hs.
+  + intros c'. destruct (Nat.eq_dec c c') as [<-|Hne].
+    * rewrite !upd_same. right. split; [left; exact Ha|]. split; [apply KI_reg_fresh|].
+      split; discriminate.
+    * rewrite upd_other by exact Hne. left. reflexivity.
+Qed.
+
 Lemma step_att_inv : forall pkts s c s', Inv pkts s -> c < ncons ->
   step_att fixed cache_t cache_add cache_snap s c = Some s' -> Inv pkts s'.
 Proof.
@@ -1010,18 +1045,7 @@ Proof.
   destruct (s_att s c) eqn:Ha; try discriminate.
   - (* A0 *) injection Hstep as <-. apply acquire_att_inv; assumption.
   - (* A1: register, unlock *)
-    injection Hstep as <-. apply release_inv.
-    destruct (i_a1 _ _ HI c Ha) as [pre Hpre]. rewrite Hpre.
-    eapply inv_cs; try exact HI; try reflexivity; simpl.
-    + left; reflexivity.
-    + intros c'. destruct (Nat.eq_dec c c') as [<-|Hne].
-      * rewrite upd_same. right. right. auto.
-      * rewrite upd_other by exact Hne. left. reflexivity.
-    + intros c' Hs. left. exact Hs.
-    + intros c'. destruct (Nat.eq_dec c c') as [<-|Hne].
-      * rewrite !upd_same. right. split; [left; exact Ha|]. split; [apply KI_reg_fresh|].
-        split; discriminate.
-      * rewrite upd_other by exact Hne. left. reflexivity.
+    injection Hstep as <-. apply release_inv. apply (att_reg_inv pkts s c HI Ha).
   - (* A2: re-check, start the goroutine *)
     assert (Hns : started (s_cs s c) = false).
     { destruct (started (s_cs s c)) eqn:E; [|reflexivity].
@@ -1497,6 +1521,390 @@ Proof.
     simpl (v_atomic fixed) in Hstep. cbv iota in Hstep. injection Hstep as <-. exact Hsw.
   - injection Hstep as <-. reflexivity.
 Qed.
+
+(* ------------------------------------------------------------------ *)
+(* the join mutex at work: snapshot and live stream never overlap (D1)  *)
+(* ------------------------------------------------------------------ *)
+(* This part needs two facts about the (abstract) cache: an empty cache has an empty snapshot and a
+   snapshot only contains packets that were added.  [rcache] satisfies both ([rc_snap_sound]). *)
+Section Join.
+Variable snap_empty : cache_snap cache_empty = [].
+Variable snap_add : forall ca p x, In x (cache_snap (cache_add ca p)) -> In x (cache_snap ca) \/ x = p.
+
+Definition same_pre (k k' : cons) : Prop := c_prefill k' = c_prefill k /\ c_regat k' = c_regat k.
+
+(* the snapshot holds only packets broadcast before the registration *)
+Definition PF (sent : list pkt) (k : cons) : Prop :=
+  forall r, c_regat k = Some r -> forall x, In x (c_prefill k) -> In x (firstn r sent).
+
+Lemma PF_same : forall sent k k', same_pre k k' -> PF sent k -> PF sent k'.
+Proof. intros sent k k' [Hp Hr] H. unfold PF. rewrite Hp, Hr. exact H. Qed.
+
+Lemma PF_grow : forall sent k p, PF sent k -> PF (sent ++ [p]) k.
+Proof.
+  intros sent k p H r Hr x Hx. rewrite firstn_app. apply in_or_app. left. exact (H r Hr x Hx).
+Qed.
+
+Lemma same_pre_close : forall k, same_pre k (close_cons fixed k).
+Proof.
+  intros k. unfold same_pre, close_cons. destruct (c_closed k); [split; reflexivity|]. simpl.
+  rewrite push_prefill, push_regat. split; reflexivity.
+Qed.
+Lemma same_pre_exit_path : forall k n, same_pre k (exit_path fixed k n).
+Proof. intros k n. unfold same_pre, exit_path. destruct (c_reg k); split; reflexivity. Qed.
+Lemma same_pre_loop_test : forall k n, same_pre k (loop_test fixed k n).
+Proof.
+  intros k n. unfold loop_test. destruct (c_closed k); [apply same_pre_exit_path | split; reflexivity].
+Qed.
+Lemma same_pre_trans : forall k1 k2 k3, same_pre k1 k2 -> same_pre k2 k3 -> same_pre k1 k3.
+Proof. intros k1 k2 k3 [A B] [C D]. split; congruence. Qed.
+Lemma same_pre_upd : forall (f : nat -> cons) c k' c', same_pre (f c) k' -> same_pre (f c') (upd f c k' c').
+Proof.
+  intros f c k' c' H. destruct (Nat.eq_dec c c') as [<-|Hne].
+  - rewrite upd_same. exact H.
+  - rewrite upd_other by exact Hne. split; reflexivity.
+Qed.
+
+Definition JL (s : state) : Prop :=
+  (s_pp s = P2 -> s_lock s = Some HPub) /\ (forall c, s_att s c = A1 -> s_lock s = Some (HAtt c)).
+
+Record JD (s : state) : Prop := {
+  j_snap : forall x, In x (cache_snap (s_cache s)) -> In x (s_cached s);
+  j_a1 : forall c, s_att s c = A1 -> forall x, In x (c_prefill (s_cs s c)) -> In x (s_sent s);
+  j_pf : forall c, PF (s_sent s) (s_cs s c)
+}.
+
+(* nobody is inside the critical section *)
+Definition quiet (s : state) : Prop := s_pp s <> P2 /\ forall c, s_att s c <> A1.
+
+Definition Inv2 (s : state) : Prop := JL s /\ JD s.
+
+Lemma inv2_quiet : forall s, JL s -> s_lock s = None -> quiet s.
+Proof.
+  intros s [H1 H2] Hl. split.
+  - intro E. rewrite (H1 E) in Hl. discriminate.
+  - intros c E. rewrite (H2 c E) in Hl. discriminate.
+Qed.
+
+Lemma jl_frame : forall s s' : state, JL s -> s_lock s' = s_lock s -> (s_pp s' = P2 -> s_pp s = P2) ->
+  (forall c, s_att s' c = A1 -> s_att s c = A1) -> JL s'.
+Proof.
+  intros s s' [H1 H2] Hl Hpp Hatt. split.
+  - intros E. rewrite Hl. auto.
+  - intros c E. rewrite Hl. auto.
+Qed.
+
+Lemma jd_frame : forall s s' : state, JD s -> s_cached s' = s_cached s -> s_sent s' = s_sent s ->
+  (s_cache s' = s_cache s \/ s_cache s' = cache_empty) ->
+  (forall c, s_att s' c = A1 -> s_att s c = A1) ->
+  (forall c, same_pre (s_cs s c) (s_cs s' c)) -> JD s'.
+Proof.
+  intros s s' [H1 H2 H3] Hcd Hsent Hcache Hatt Hcs. constructor.
+  - intros x Hx. rewrite Hcd. destruct Hcache as [E|E]; rewrite E in Hx.
+    + auto.
+    + rewrite snap_empty in Hx. contradiction.
+  - intros c E x Hx. rewrite Hsent. destruct (Hcs c) as [Hp _]. rewrite Hp in Hx. eauto.
+  - intros c. rewrite Hsent. eapply PF_same; [apply Hcs | apply H3].
+Qed.
+
+Lemma inv2_frame : forall s s' : state, Inv2 s -> s_lock s' = s_lock s -> (s_pp s' = P2 -> s_pp s = P2) ->
+  s_cached s' = s_cached s -> s_sent s' = s_sent s ->
+  (s_cache s' = s_cache s \/ s_cache s' = cache_empty) ->
+  (forall c, s_att s' c = A1 -> s_att s c = A1) ->
+  (forall c, same_pre (s_cs s c) (s_cs s' c)) -> Inv2 s'.
+Proof.
+  intros s s' [HL HD] Hl Hpp Hcd Hsent Hcache Hatt Hcs. split.
+  - eapply jl_frame; eassumption.
+  - eapply jd_frame; eassumption.
+Qed.
+
+Lemma after_acquire_pub_inv2 : forall pkts s lq, Inv pkts s -> JD s -> quiet s ->
+  s_todo s <> [] -> Inv2 (AfterAcq s HPub lq).
+Proof.
+  intros pkts s lq HI [H1 H2 H3] [Hq1 Hq2] Htodo.
+  unfold after_acquire. destruct (s_todo s) as [|p rest]; [contradiction|].
+  split; [split|constructor]; simpl.
+  - reflexivity.
+  - intros c E. destruct (Hq2 c E).
+  - intros x Hx. apply in_or_app. destruct (snap_add _ _ _ Hx) as [Hx'| ->]; [left; auto | right; left; reflexivity].
+  - intros c E. destruct (Hq2 c E).
+  - exact H3.
+Qed.
+
+Lemma after_acquire_att_inv2 : forall pkts s c lq, Inv pkts s -> JD s -> quiet s ->
+  s_att s c = A0 \/ s_att s c = A0W -> Inv2 (AfterAcq s (HAtt c) lq).
+Proof.
+  intros pkts s c lq HI [H1 H2 H3] [Hq1 Hq2] Ha.
+  pose proof (i_early _ _ HI c Ha) as Hk0.
+  unfold after_acquire. rewrite Hk0.
+  split; [split|constructor]; simpl.
+  - intros E. contradiction.
+  - intros c'. destruct (Nat.eq_dec c c') as [<-|Hne].
+    + reflexivity.
+    + rewrite upd_other by exact Hne. intros E. destruct (Hq2 c' E).
+  - exact H1.
+  - intros c'. destruct (Nat.eq_dec c c') as [<-|Hne].
+    + rewrite !upd_same. simpl. intros _ x Hx. rewrite <- (i_out _ _ HI Hq1). auto.
+    + rewrite !upd_other by exact Hne. apply H2.
+  - intros c'. destruct (Nat.eq_dec c c') as [<-|Hne].
+    + rewrite upd_same. intros r Hr. discriminate.
+    + rewrite upd_other by exact Hne. apply H3.
+Qed.
+
+Lemma release_inv2 : forall pkts s, Inv pkts s -> JD s -> quiet s -> Inv2 (Release s).
+Proof.
+  intros pkts s HI HD Hq. unfold release. simpl (v_lock fixed). cbv iota.
+  destruct (s_lockq s) as [|h rest] eqn:Hlq.
+  - destruct Hq as [Hq1 Hq2]. split.
+    + split; simpl; [intros E; contradiction | intros c E; destruct (Hq2 c E)].
+    + eapply jd_frame; try exact HD; try reflexivity; simpl; auto. intros c; split; reflexivity.
+  - destruct h as [|c].
+    + eapply after_acquire_pub_inv2; try eassumption.
+      apply (i_p1w _ _ HI). apply (i_qpub _ _ HI). rewrite Hlq. left. reflexivity.
+    + eapply after_acquire_att_inv2; try eassumption.
+      right. apply (i_qatt _ _ HI c). rewrite Hlq. left. reflexivity.
+Qed.
+
+Lemma acquire_pub_inv2 : forall pkts s, Inv pkts s -> Inv2 s -> s_pp s = P1 -> s_todo s <> [] ->
+  Inv2 (Acquire s HPub).
+Proof.
+  intros pkts s HI [HL HD] Hpp Htodo. unfold acquire. simpl (v_lock fixed). cbv iota.
+  destruct (s_lock s) eqn:Hl.
+  - eapply inv2_frame; [split; eassumption | ..]; simpl; auto; try discriminate.
+    intros c; split; reflexivity.
+  - eapply after_acquire_pub_inv2; try eassumption. apply inv2_quiet; assumption.
+Qed.
+
+Lemma acquire_att_inv2 : forall pkts s c, Inv pkts s -> Inv2 s -> s_att s c = A0 ->
+  Inv2 (Acquire s (HAtt c)).
+Proof.
+  intros pkts s c HI [HL HD] Ha. unfold acquire. simpl (v_lock fixed). cbv iota.
+  destruct (s_lock s) eqn:Hl.
+  - eapply inv2_frame; [split; eassumption | ..]; simpl; auto.
+    + intros c'. destruct (Nat.eq_dec c c') as [<-|Hne].
+      * rewrite upd_same. discriminate.
+      * rewrite upd_other by exact Hne. auto.
+    + intros c'; split; reflexivity.
+  - eapply after_acquire_att_inv2; try eassumption; [apply inv2_quiet; assumption | left; exact Ha].
+Qed.
+
+Lemma holder_excl : forall s, JL s -> s_pp s = P2 -> forall c, s_att s c <> A1.
+Proof. intros s [H1 H2] Hpp c E. rewrite (H1 Hpp) in H2. specialize (H2 c E). discriminate. Qed.
+
+Lemma holder_excl_att : forall s c, JL s -> s_att s c = A1 ->
+  s_pp s <> P2 /\ forall c', s_att s c' = A1 -> c' = c.
+Proof.
+  intros s c [H1 H2] Ha. pose proof (H2 c Ha) as Hl. split.
+  - intro E. rewrite (H1 E) in Hl. discriminate.
+  - intros c' E. rewrite (H2 c' E) in Hl. congruence.
+Qed.
+
+Lemma step_pub_inv2 : forall pkts s s', Inv pkts s -> Inv2 s ->
+  step_pub fixed maxq cache_t cache_add cache_snap ncons s = Some s' -> Inv2 s'.
+Proof.
+  intros pkts s s' HI HJ Hstep. unfold step_pub in Hstep.
+  destruct (s_pp s) eqn:Hpp; destruct (s_todo s) as [|p rest] eqn:Ht; try discriminate.
+  - destruct (s_ok s); injection Hstep as <-.
+    + eapply inv2_frame; try exact HJ; simpl; auto; try discriminate. intros c; split; reflexivity.
+    + eapply inv2_frame; try exact HJ; simpl; auto; try congruence. intros c; split; reflexivity.
+  - injection Hstep as <-. eapply acquire_pub_inv2; try eassumption. congruence.
+  - injection Hstep as <-. destruct HJ as [HL [H1 H2 H3]].
+    pose proof (holder_excl _ HL Hpp) as Hex.
+    eapply release_inv2.
+    + apply (pub_send_inv pkts s p rest HI Hpp Ht).
+    + constructor; simpl.
+      * exact H1.
+      * intros c E. destruct (Hex c E).
+      * intros c. rewrite send_all_spec. apply PF_grow.
+        destruct ((c <? ncons) && c_reg (s_cs s c)); [|apply H3].
+        eapply PF_same; [|apply H3]. split; [apply send_prefill | apply send_regat].
+    + split; simpl; [discriminate | exact Hex].
+Qed.
+
+Lemma step_att_inv2 : forall pkts s c s', Inv pkts s -> Inv2 s ->
+  step_att fixed cache_t cache_add cache_snap s c = Some s' -> Inv2 s'.
+Proof.
+  intros pkts s c s' HI HJ Hstep. unfold step_att in Hstep.
+  destruct (s_att s c) eqn:Ha; try discriminate.
+  - injection Hstep as <-. eapply acquire_att_inv2; eassumption.
+  - injection Hstep as <-. destruct HJ as [HL [H1 H2 H3]].
+    destruct (holder_excl_att _ _ HL Ha) as [Hnp Huniq].
+    assert (Hq : forall c', upd (s_att s) c A2 c' <> A1).
+    { intros c'. destruct (Nat.eq_dec c c') as [<-|Hne].
+      - rewrite upd_same. discriminate.
+      - rewrite upd_other by exact Hne. intro E. apply Hne. symmetry. apply Huniq. exact E. }
+    eapply release_inv2.
+    + apply (att_reg_inv pkts s c HI Ha).
+    + constructor; simpl.
+      * exact H1.
+      * intros c' E. destruct (Hq c' E).
+      * intros c'. destruct (Nat.eq_dec c c') as [<-|Hne].
+        -- rewrite upd_same. intros r Hr x Hx. simpl in Hr, Hx. injection Hr as <-.
+           rewrite firstn_all. exact (H2 c Ha x Hx).
+        -- rewrite upd_other by exact Hne. apply H3.
+    + split; simpl; [exact Hnp | exact Hq].
+  - assert (Hfin : forall cnt k1, same_pre (s_cs s c) k1 ->
+              Inv2 (set_att cache_t s c ADone cnt (upd (s_cs s) c (loop_test fixed k1 (length (s_sent s)))))).
+    { intros cnt k1 Hsp. eapply inv2_frame; try exact HJ; simpl; auto.
+      - intros c'. destruct (Nat.eq_dec c c') as [<-|Hne].
+        + rewrite upd_same. discriminate.
+        + rewrite upd_other by exact Hne. auto.
+      - intros c'. apply same_pre_upd. eapply same_pre_trans; [exact Hsp | apply same_pre_loop_test]. }
+    destruct (v_recheck fixed && negb (s_ok s) && c_reg (s_cs s c)); injection Hstep as <-.
+    + apply Hfin. eapply same_pre_trans; [|apply same_pre_close]. split; reflexivity.
+    + apply Hfin. split; reflexivity.
+Qed.
+
+Lemma step_stop_inv2 : forall s c s', Inv2 s -> step_stop fixed cache_t s c = Some s' -> Inv2 s'.
+Proof.
+  intros s c s' HJ Hstep. unfold step_stop in Hstep.
+  destruct (s_stp s c); try discriminate.
+  - destruct (c_reg (s_cs s c)); injection Hstep as <-.
+    + eapply inv2_frame; try exact HJ; simpl; auto.
+      intros c'. apply same_pre_upd. split; reflexivity.
+    + eapply inv2_frame; try exact HJ; simpl; auto. intros c'; split; reflexivity.
+  - injection Hstep as <-.
+    eapply inv2_frame; try exact HJ; simpl; auto.
+    intros c'. apply same_pre_upd. apply same_pre_close.
+Qed.
+
+Lemma step_cons_inv2 : forall s c s', Inv2 s -> step_cons fixed cache_t panic_at s c = Some s' -> Inv2 s'.
+Proof.
+  intros s c s' HJ Hstep. unfold step_cons in Hstep.
+  destruct (c_pc (s_cs s c)) as [| |x| | |]; try discriminate.
+  - destruct (c_q (s_cs s c)); injection Hstep as <-;
+      (eapply inv2_frame; try exact HJ; simpl; auto; intros c'; apply same_pre_upd; split; reflexivity).
+  - destruct x as [p|].
+    + destruct (Nat.eqb _ _); injection Hstep as <-;
+        (eapply inv2_frame; try exact HJ; simpl; auto; intros c'; apply same_pre_upd).
+      * eapply same_pre_trans; [|apply same_pre_exit_path]. split; reflexivity.
+      * eapply same_pre_trans; [|apply same_pre_loop_test]. split; reflexivity.
+    + injection Hstep as <-.
+      eapply inv2_frame; try exact HJ; simpl; auto. intros c'; apply same_pre_upd. apply same_pre_loop_test.
+  - injection Hstep as <-.
+    eapply inv2_frame; try exact HJ; simpl; auto. intros c'; apply same_pre_upd.
+    eapply same_pre_trans; [apply same_pre_close|]. split; reflexivity.
+Qed.
+
+Lemma step_close_inv2 : forall s s', Inv2 s -> step_close fixed cache_t cache_empty ncons s = Some s' -> Inv2 s'.
+Proof.
+  intros s s' HJ Hstep. unfold step_close in Hstep.
+  destruct (s_kp s); try discriminate.
+  - injection Hstep as <-. eapply inv2_frame; try exact HJ; simpl; auto. intros c; split; reflexivity.
+  - pose proof (sweep_spec ncons (s_cs s) (length (s_sent s))) as Hsw.
+    destruct (sweep fixed ncons (s_cs s) (length (s_sent s))) as [f d].
+    simpl (v_atomic fixed) in Hstep. cbv iota in Hstep. injection Hstep as <-. simpl in Hsw.
+    eapply inv2_frame; try exact HJ; simpl; auto.
+    intros c. rewrite Hsw. destruct ((c <? ncons) && c_reg (s_cs s c)); [|split; reflexivity].
+    eapply same_pre_trans; [|apply same_pre_close]. split; reflexivity.
+  - injection Hstep as <-. eapply inv2_frame; try exact HJ; simpl; auto. intros c; split; reflexivity.
+Qed.
+
+Lemma step_inv2 : forall pkts s t s', Inv pkts s /\ Inv2 s -> Step s t = Some s' -> Inv pkts s' /\ Inv2 s'.
+Proof.
+  intros pkts s t s' [HI HJ] Hstep. split; [eapply step_inv; eassumption|].
+  destruct t as [| |c|c|c]; simpl in Hstep.
+  - eapply step_pub_inv2; eassumption.
+  - eapply step_close_inv2; eassumption.
+  - destruct (c <? ncons); [|discriminate]. eapply step_att_inv2; eassumption.
+  - destruct (c <? ncons); [|discriminate]. destruct (s_att s c); try discriminate.
+    eapply step_stop_inv2; eassumption.
+  - destruct (c <? ncons); [|discriminate]. eapply step_cons_inv2; eassumption.
+Qed.
+
+Lemma init_inv2 : forall pkts stoppers, Inv2 (Init pkts stoppers).
+Proof.
+  intros pkts stoppers. split; [split|constructor]; simpl; try discriminate.
+  rewrite snap_empty. intros x [].
+Qed.
+
+Lemma reachable_inv2 : forall pkts stoppers sched,
+  Inv pkts (Run sched (Init pkts stoppers)) /\ Inv2 (Run sched (Init pkts stoppers)).
+Proof.
+  intros. apply (inv_run (fun s => Inv pkts s /\ Inv2 s)).
+  - intros s t s'. apply step_inv2.
+  - split; [apply init_inv | apply init_inv2].
+Qed.
+
+(* mutual exclusion of the join mutex (used by C02 as well) *)
+Theorem join_mutex_exclusive : forall pkts stoppers sched,
+  let s := Run sched (Init pkts stoppers) in
+  (s_pp s = P2 -> s_lock s = Some HPub) /\ (forall c, s_att s c = A1 -> s_lock s = Some (HAtt c)).
+Proof. intros pkts stoppers sched s. destruct (reachable_inv2 pkts stoppers sched) as [_ [HL _]]. exact HL. Qed.
+
+(* the snapshot contains only packets whose broadcast completed before the registration: together
+   with [live_out_subseq_window] (live = broadcast from the registration on) snapshot and live
+   stream do not overlap *)
+Theorem prefill_before_registration : forall pkts stoppers sched c r x,
+  let s := Run sched (Init pkts stoppers) in
+  let k := s_cs s c in
+  c_regat k = Some r -> In x (c_prefill k) -> In x (firstn r (s_sent s)).
+Proof.
+  intros pkts stoppers sched c r x s k Hr Hx.
+  destruct (reachable_inv2 pkts stoppers sched) as [_ [_ HD]]. exact (j_pf _ HD c r Hr x Hx).
+Qed.
+
+Lemma NoDup_map_app_disjoint : forall A B (f : A -> B) l1 l2 x y,
+  NoDup (map f (l1 ++ l2)) -> In x l1 -> In y l2 -> f x <> f y.
+Proof.
+  intros A B f l1 l2 x y. induction l1 as [|a l1 IH]; simpl; intros Hnd Hx Hy; [contradiction|].
+  inversion Hnd as [|? ? Hnin Hnd']; subst. destruct Hx as [->|Hx].
+  - intro E. apply Hnin. rewrite E. apply in_map. apply in_or_app. right. exact Hy.
+  - apply IH; assumption.
+Qed.
+
+Lemma NoDup_app_intro : forall A (l1 l2 : list A),
+  NoDup l1 -> NoDup l2 -> (forall x, In x l1 -> ~ In x l2) -> NoDup (l1 ++ l2).
+Proof.
+  intros A l1 l2 H1 H2 Hd. induction H1 as [|a l1 Ha H1 IH]; simpl; [exact H2|].
+  constructor.
+  - intro Hin. apply in_app_or in Hin. destruct Hin as [Hin|Hin]; [contradiction|].
+    apply (Hd a); [left; reflexivity | exact Hin].
+  - apply IH. intros x Hx. apply Hd. right. exact Hx.
+Qed.
+
+Lemma window_in_skipn : forall sent r u y, In y (window sent (Some r) u) -> In y (skipn r sent).
+Proof.
+  intros sent r [u|] y Hy; simpl in Hy; [|exact Hy].
+  eapply subseq_In; [apply subseq_firstn | exact Hy].
+Qed.
+
+(* at most once, for the whole delivered stream (snapshot part and live part together) *)
+Theorem out_at_most_once : forall pkts stoppers sched c,
+  let s := Run sched (Init pkts stoppers) in
+  let k := s_cs s c in
+  NoDup (map p_id pkts) -> NoDup (map p_id (c_prefill k)) -> NoDup (map p_id (c_out k)).
+Proof.
+  intros pkts stoppers sched c s k Hnd Hndp.
+  destruct (reachable_inv2 pkts stoppers sched) as [HI [_ HD]]. fold s in HI, HD.
+  pose proof (i_ki _ _ HI c) as HK. fold k in HK.
+  destruct (ki_q _ _ HK) as [rest [Hq _]]. pose proof (ki_w _ _ HK) as Hw.
+  set (n := length (c_prefill k)).
+  assert (Hpre : c_prefill k = firstn n (c_out k) ++ firstn (n - length (c_out k)) (pend k ++ rest)).
+  { rewrite <- firstn_app, <- Hq, Hw, firstn_app. unfold n.
+    rewrite firstn_all, Nat.sub_diag, firstn_O, app_nil_r. reflexivity. }
+  rewrite <- (firstn_skipn n (c_out k)). rewrite map_app.
+  apply NoDup_app_intro.
+  - eapply subseq_NoDup; [|exact Hndp]. apply subseq_map. rewrite Hpre. apply subseq_app_l.
+  - apply (live_out_at_most_once pkts stoppers sched c Hnd).
+  - intros i Hi1 Hi2.
+    apply in_map_iff in Hi1. destruct Hi1 as [x [Hfx Hx]].
+    apply in_map_iff in Hi2. destruct Hi2 as [y [Hfy Hy]].
+    assert (Hxp : In x (c_prefill k)).
+    { rewrite Hpre. apply in_or_app. left. exact Hx. }
+    assert (Hyw : In y (window (s_sent s) (c_regat k) (c_unregat k))).
+    { eapply subseq_In; [apply (live_out_subseq_window pkts stoppers sched c) | exact Hy]. }
+    destruct (c_regat k) as [r|] eqn:Hr; [|contradiction].
+    pose proof (j_pf _ HD c r Hr x Hxp) as Hx1.
+    pose proof (window_in_skipn _ _ _ _ Hyw) as Hy1.
+    destruct (sent_prefix_of_published pkts stoppers sched) as [rest' Hp]. fold s in Hp.
+    assert (Hnds : NoDup (map p_id (firstn r (s_sent s) ++ skipn r (s_sent s)))).
+    { rewrite firstn_skipn. eapply subseq_NoDup; [|exact Hnd]. apply subseq_map.
+      rewrite Hp. apply subseq_app_l. }
+    apply (NoDup_map_app_disjoint _ _ p_id _ _ x y Hnds Hx1 Hy1). congruence.
+Qed.
+
+End Join.
 
 End Fanout.
 
